@@ -1,9 +1,9 @@
 (* Correspondence entry point for C04.
    case = VTup [VInt max_retries; VInt mode; VList jobs]
-   job  = VTup [VInt action; VInt style; VInt pre; VInt post; VList parts]   (style: lazy/eager task function,
-                                                                              decisive for the lazy actions only)
+   job  = VTup [VInt action; VInt style; VList pre_ops; VList post_ops; VList parts; VInt reuse]
    part = VTup [VList data; VList plan; VList nest]
-   plan entry = VNone | VTup [VInt exception_class; VInt position];  nest entry = VTup [VInt kind; VInt caught]
+   plan entry = VNone | VTup [VInt exception_class; VInt position]
+   nest entry = VTup [VInt kind; VInt caught]   (kind < 40: a dataset creation, otherwise an action)
    result = VList of VTup [res; VList logs] per job (see py/c04.py). *)
 From Coq Require Import String ZArith List Bool.
 Require Import PV.Base.Val PV.Model.Retry.
@@ -22,7 +22,7 @@ Fixpoint dec_nest (l : list val) : option (list nop) :=
   match l with
   | [] => Some []
   | VTup [VInt k; VInt c] :: r =>
-      option_map (cons (mkNop (if k =? 0 then NCreate else NAction) (negb (c =? 0)))) (dec_nest r)
+      option_map (cons (mkNop (if k <? 40 then NCreate else NAction) (negb (c =? 0)))) (dec_nest r)
   | _ => None
   end.
 
@@ -30,7 +30,7 @@ Definition dec_part (v : val) : option part :=
   match v with
   | VTup [VList d; VList pl; VList ns] =>
       match all_Z d, dec_plan pl, dec_nest ns with
-      | Some d', Some pl', Some ns' => Some (mkPart d' pl' ns')
+      | Some d', Some pl', Some ns' => Some (mkPart d' pl' ns' None 0)
       | _, _, _ => None
       end
   | _ => None
@@ -42,49 +42,51 @@ Fixpoint dec_all {A} (f : val -> option A) (l : list val) : option (list A) :=
   | v :: r => match f v, dec_all f r with Some a, Some r' => Some (a :: r') | _, _ => None end
   end.
 
-Definition dec_job (v : val) : option job :=
+Definition dec_job (v : val) : option jobreq :=
   match v with
-  | VTup [VInt a; VInt st; VInt pre; VInt post; VList ps] =>
-      option_map (mkJob a (negb (st =? 0)) pre post) (dec_all dec_part ps)
+  | VTup [VInt a; VInt st; VList pre; VList post; VList ps; VInt reuse] =>
+      match all_Z pre, all_Z post, dec_all dec_part ps with
+      | Some pre', Some post', Some ps' => Some (mkReq (mkJob a (negb (st =? 0)) pre' post' ps') (negb (reuse =? 0)))
+      | _, _, _ => None
+      end
   | _ => None
   end.
 
-Definition enc_rec (r : arec) : val :=
-  VTup [VInt (a_no r); vints (a_nest r); vints (a_seen r);
+(* the attempt log numbers the calls of the injected function: earlier jobs on the same dataset count *)
+Definition enc_rec (calls : nat) (r : arec) : val :=
+  VTup [VInt (a_no r + Z.of_nat calls); vints (a_nest r); vints (a_seen r);
         VInt (match a_out r with None => -1 | Some e => e end)].
 
 (* mode 2 (free-running pool): the logs of the partitions after the failing one are not determined *)
-Fixpoint enc_logs (mask_after : option Z) (idx : Z) (logs : list (list arec)) : list val :=
-  match logs with
-  | [] => []
-  | l :: rest =>
+Fixpoint enc_logs (mask_after : option Z) (idx : Z) (ps : list part) (logs : list (list arec)) : list val :=
+  match ps, logs with
+  | p :: ps', l :: rest =>
       (match mask_after with
-       | Some i => if i <? idx then VInt 1 else VList (map enc_rec l)
-       | None => VList (map enc_rec l)
-       end) :: enc_logs mask_after (idx + 1) rest
+       | Some i => if i <? idx then VInt 1 else VList (map (enc_rec (p_calls p)) l)
+       | None => VList (map (enc_rec (p_calls p)) l)
+       end) :: enc_logs mask_after (idx + 1) ps' rest
+  | _, _ => []
   end.
 
-Definition enc_outcome (mode : Z) (jidx : Z) (j : job) (o : outcome) : val :=
+Definition calls_of (j : job) (i : Z) : Z := Z.of_nat (p_calls (nth (Z.to_nat i) (j_parts j) (mkPart [] [] [] None 0))).
+
+Definition enc_outcome (mode : Z) (origin : Z) (j : job) (o : outcome) : val :=
   match o_res o with
   | JFuel => VFuel
-  | JOk v => VTup [VTup [VInt 0; v]; VList (enc_logs None 0 (o_logs o))]
-  | JRefused => VTup [VTup [VInt 1; VInt E_LOCKED; VTup []]; VList (enc_logs None 0 (o_logs o))]
+  | JOk v => VTup [VTup [VInt 0; v]; VList (enc_logs None 0 (j_parts j) (o_logs o))]
+  | JRefused => VTup [VTup [VInt 1; VInt E_LOCKED; VTup []]; VList (enc_logs None 0 (j_parts j) (o_logs o))]
   | JErr e i a =>
-      VTup [VTup [VInt 1; VInt e; if (e =? E_LOCKED) || (e =? E_STOP) then VTup [] else VTup [VInt jidx; VInt i; VInt a]];
-            VList (enc_logs (if (mode =? 2) && negb (is_lazy (j_action j)) then Some i else None) 0 (o_logs o))]
-  end.
-
-Fixpoint enc_all (mode : Z) (jidx : Z) (js : list job) (os : list outcome) : list val :=
-  match js, os with
-  | j :: js', o :: os' => enc_outcome mode jidx j o :: enc_all mode (jidx + 1) js' os'
-  | _, _ => []
+      VTup [VTup [VInt 1; VInt e;
+                  if (e =? E_LOCKED) || (e =? E_STOP) then VTup [] else VTup [VInt origin; VInt i; VInt (a + calls_of j i)]];
+            VList (enc_logs (if (mode =? 2) && negb (is_lazy (j_action j)) then Some i else None) 0 (j_parts j) (o_logs o))]
   end.
 
 Definition run (c : val) : val :=
   match c with
   | VTup [VInt maxr; VInt mode; VList jobs] =>
       match dec_all dec_job jobs with
-      | Some js => VList (enc_all mode 0 js (fst (run_jobs mode maxr false js)))
+      | Some rqs => VList (map (fun '(origin, j, o) => enc_outcome mode origin j o)
+                               (fst (run_jobs mode maxr false None 0 rqs)))
       | None => VBad
       end
   | _ => VBad
